@@ -101,4 +101,19 @@ PROPS = {
                  thorough=dict(checks=240, shards=8, budget_s=2400, shrink="2m")),
         ],
     ),
+    "C14": dict(
+        level="exploration",
+        text="Exploration by generated search over schedules: N goroutines and M helper OS processes run generated operation lists (read-modify-write updates with pauses inside the "
+             "callback, loads, whole-record saves, UpdateBasicStatus) against one status file through the real StatusFileData API; invariants over every load and the final record "
+             "(no lost update, no wiped field, no partial record), plus exact model comparison on drawn sequential interleavings of writers with private in-memory copies.",
+        note="Trusted: the OS file lock; interleavings are sampled by the scheduler (the harness widens the windows with pauses inside callbacks and synchronised starts), not enumerated.",
+        technique="property-based testing (rapid): generated concurrent operation lists with history invariants (counter conservation), and model-based sequential interleavings",
+        assumptions=["helper processes start their operation lists at a common wall-clock instant; overlap is measured, not assumed",
+                     "Save is a whole-record overwrite by design, so totals are only asserted in histories without Save"],
+        parts=[
+            part("status", "workprops", "TestC14", "C14",
+                 quick=dict(checks=240, shards=8, budget_s=300),
+                 thorough=dict(checks=6000, shards=16, budget_s=3000, shrink="2m")),
+        ],
+    ),
 }
